@@ -948,7 +948,7 @@ class Emitter:
 
 
 NARROW = {}
-ZERO_STUBS = {'__cxa_atexit', '_ZNKSt8__detail20_Prime_rehash_policy14_M_need_rehashEmmm', '_ZSt11_Hash_bytesPKvmm', '_ZNSt8ios_base4InitC1Ev', '_ZNSt8ios_base4InitD1Ev'}
+ZERO_STUBS = {'__cxa_allocate_exception', '__cxa_free_exception', '_ZNSt16invalid_argumentC1EPKc', '_ZNSt16invalid_argumentD1Ev', '_ZNSt16invalid_argumentC1ERKNSt7__cxx1112basic_stringIcSt11char_traitsIcESaIcEEE', '_ZNSt12out_of_rangeC1EPKc', '_ZNSt12out_of_rangeD1Ev', '__cxa_atexit', '_ZNKSt8__detail20_Prime_rehash_policy14_M_need_rehashEmmm', '_ZSt11_Hash_bytesPKvmm', '_ZNSt8ios_base4InitC1Ev', '_ZNSt8ios_base4InitD1Ev'}
 PRELUDE_FUNCS = {'malloc','free','memcpy','memmove','memset','memcmp','bcmp','strlen','memchr','ceil','floor','sqrt','fabs','pow','fmod','trunc','round'}
 
 INT_SIGNED = {8: 'i8', 16: 'i16', 32: 'i32', 64: 'i64', 128: 'i128'}
@@ -1099,6 +1099,19 @@ class FnEmitter:
                         self.i8_origin[mm.group(1)] = ty
         for x, ty in self.alloc_ty.items():
             self.i8_origin.setdefault(x, ty)
+        # %x = getelementptr inbounds T, T* %p, i64 0, i32 0, ... (all zero) yielding i8*: the address of T's first byte
+        for bname, pl in parsed.items():
+            for s_, toks in pl:
+                mm = re.match(r'\s*(%[-\w.$"]+) = getelementptr inbounds (.*), (.*)\* (%[-\w.$"]+)((?:, i(?:32|64) 0)+)$', s_.split(', !')[0].strip())
+                if mm and mm.group(1) not in self.i8_origin:
+                    try:
+                        ty = parse_type(Toks(tokenize(mm.group(2)), s_))
+                        idxs = [(IntTy(32), '0', ConstInt(0))] * mm.group(5).count(', i')
+                        rt = em.gep_result_type(ty, idxs)
+                    except Exception:
+                        continue
+                    if isinstance(rt, PtrTy) and isinstance(rt.to, IntTy) and rt.to.n == 8 and em.size_align(ty)[0] and not (isinstance(ty, IntTy) and ty.n == 8):
+                        self.i8_origin[mm.group(1)] = ty
         # params
         params = []
         for idx, (t, nm, attrs) in enumerate(f.params):
@@ -1609,14 +1622,19 @@ class FnEmitter:
                 if isinstance(r, ArrTy): t = r.el
                 else: return t
         td = org(d); ts = org(s_) if s_ is not None else None
-        cands = [strip(t) for t in (td, ts) if t is not None]
+        cands = [strip(t) for t in (td, ts) if t is not None]   # destination first: the written cells keep their own types
         if not cands: return None
-        # prefer the smallest element
-        cands.sort(key=lambda t: em.size_align(t)[0])
-        t = cands[0]
-        if isinstance(em.resolve(t), IntTy) and em.resolve(t).n == 8: return None
-        if em.is_bytestruct(t): return None
-        return t
+        def bad(t):
+            r = em.resolve(t)
+            return (isinstance(r, IntTy) and r.n == 8) or em.is_bytestruct(t)
+        cands = [t for t in cands if not bad(t)]
+        if not cands: return None
+        # never copy through a pointer element type unless every known side is a pointer: LLVM addresses payloads through
+        # unrelated struct types (e.g. (_Rb_tree_node_base*)p + 1), and moving integers through pointer-typed temporaries makes
+        # cbmc mis-simplify later arithmetic on them
+        nonptr = [t for t in cands if not isinstance(em.resolve(t), PtrTy)]
+        if nonptr: return nonptr[0]
+        return cands[0]
 
     def intrinsic(self, name, res, rt, args, A):
         L = self.lines
